@@ -511,6 +511,11 @@ func (dr *vDriver) monPublished(b []byte, how string, op vOp) {
 	if op.K == "obs" || op.K == "loop" {
 		// locally assembled: the set in force when the message was observed, and the set the VAA names
 		gs := dr.localGS[d]
+		if gs == nil && len(dr.sets) > 0 {
+			// observed / injected before the node had learned any set: no set was in force then; the signatures are judged against the
+			// set the node holds when it assembles the VAA (the latest set learned from chain)
+			gs = dr.sets[len(dr.sets)-1]
+		}
 		if !dr.verifiesAgainst(v, gs) {
 			dr.h.Mon = append(dr.h.Mon, "C01: locally assembled VAA ("+how+") does not carry a valid quorum of the set in force at observation time")
 		} else if dr.localIdx[d] && v.GuardianSetIndex != gs.Index {
